@@ -219,7 +219,14 @@ impl RunAndCompileInputData {
             )
         })?;
 
-        build_symbol_table_mut(symbol_table, &res);
+        // Source locations by hash, for everything the compiler has not named
+        // itself: a function whose whole code is one atom shares its hash with
+        // every other occurrence of that atom.
+        let mut locations = HashMap::new();
+        build_symbol_table_mut(&mut locations, &res);
+        for (hash, loc) in locations {
+            symbol_table.entry(hash).or_insert(loc);
+        }
 
         Ok(res)
     }
